@@ -2,7 +2,8 @@
 R1+R2 DataFrames.tla (recursive collection, sort by index, count and checksum checks; every frame count x fan-out x
 single fault is an initial state and a replay case); R3 real frames (reference encoder), seeded payloads up to 200 KiB,
 CRC64 / FNV / no checksum, chain on the metadata or the transaction-data side, through tooling.LoadDataFromDataFrames,
-storage.go and accum.ObjectsToTransactionsAndMetadata, with a late-mutation check; R4 Trace_DataFrames."""
+storage.go, accum.ObjectsToTransactionsAndMetadata and the getBlock handlers (gRPC / JSON-RPC, rewards payload of a loaded
+epoch with and without a missing frame), with a late-mutation check; R4 Trace_DataFrames."""
 from core import Inconclusive, sha
 
 
@@ -40,6 +41,9 @@ def run(ctx):
     ov = ctx.overlay(main_files=["helpers_test.go", "c14_test.go"])
     b = ctx.go_build(".", ov, name="main_c14")
     obs = ctx.go_run(b, "^TestVerifC14$", cases=casep, timeout_s=3000)
+    if not ctx.replay:
+        # the rewards payload through the real getBlock handlers of a loaded epoch (complete payloads and payloads missing a frame)
+        obs += ctx.go_run(b, "^TestVerifC14Server$", out="obs_server.ndjson", timeout_s=900)
     rejected = ctx.r4_judge(["Trace_DataFrames"], "Trace_DataFrames", obs, chunk=20000, timeout_s=2400)
     for o in obs:
         ctx.count(sha([o["n"], o["fan"], o["fault"], o["checksum"], o["side"], o["via"], o["size"] > 1000]), o["n"] >= 2)
